@@ -312,11 +312,32 @@ def s_round(draw, first):
 @st.composite
 def s_case(draw):
     n = draw(st.integers(1, 6))
-    return {"peers": draw(st.integers(1, 4)), "states0": [draw(s_state) for _ in range(4)],
+    case = {"peers": draw(st.integers(1, 4)), "states0": [draw(s_state) for _ in range(4)],
             "wait": draw(st.sampled_from([0.3, 0.5, 0.7, 1.1])),
             "rounds": [draw(s_round(i == 0)) for i in range(n)],
             "mode": draw(st.sampled_from(["direct", "direct", "request"])),
             "schema_meta": draw(st.booleans()), "peers_v2": draw(st.booleans())}
+    if draw(st.booleans()):
+        # steer towards the interesting region: a peer that is marked down holds another version while a live peer
+        # disagrees in the first round (and possibly catches up later)
+        npeers = case["peers"]
+        d = draw(st.integers(0, npeers - 1))
+        r0 = case["rounds"][0]
+        other = (r0["local"] + 1) % 3
+        case["states0"][d] = "down"
+        r0["peers"][d] = other
+        r0["silent"] = False
+        r0["flip"] = [f for f in r0["flip"] if f[0] != d]
+        if npeers >= 2:
+            u = (d + 1 + draw(st.integers(0, npeers - 2))) % npeers
+            case["states0"][u] = draw(st.sampled_from(["up", "unknown"]))
+            r0["peers"][u] = other
+            r0["flip"] = [f for f in r0["flip"] if f[0] != u]
+            if len(case["rounds"]) == 1:
+                case["rounds"].append(draw(s_round(False)))
+        else:
+            r0["local"], r0["peers"][d] = r0["local"], other
+    return case
 
 
 def parts(tier):
